@@ -22,7 +22,7 @@ EXPLANATION += (  # round-3 supplement
     ' F8 no new generated block is started while a frame of the same method already holds evaluated temporaries (emptying the frame with mem::take clears that). F9 the divergence accumulator of `match` is updated on every iteration path of the arm loop. F10 divergence is inherited only from sub-expressions that are always evaluated (not loop bodies, not the right operand of && / ||).'
 )
 EXPLANATION += (
-    ' F11 at every descent into a user sub-expression (which may return early and then drops exactly the registered variables) no owned value is in limbo - stored in an unregistered temporary or already taken out of its frame for a call that is not emitted yet - and no registered aggregate is partly initialised (may-dataflow of limbo tokens per method, cleared at new_block; per-element closures analysed as loops; helpers summarised).'
+    ' F11 at every descent into a user sub-expression (which may return early and then drops exactly the registered variables) no owned value is in limbo - stored in an unregistered temporary or already taken out of its frame for a call that is not emitted yet - and no registered aggregate is partly initialised (may-dataflow of limbo tokens per method, cleared at new_block; per-element closures analysed as loops; helpers summarised). F12 a lazily lowered operand (mir::Value) is stored before the next sub-expression is lowered (the call arguments it names are owned by nobody until then).'
 )
 ASSUMPTIONS = [
     "lir lowering turns every mir Drop into exactly one call of the type's drop function",
@@ -974,6 +974,11 @@ def _limbo_flow(b, vis, looping, summ_ret, summ_unreg):
                 tid = ("R", bi, ai)
                 tokens[tid] = ("taken out of its frame by %s at line %s" % (n, t.get("line")), _forward(b, roots), t.get("line"), roots)
                 e.append(("GEN", tid))
+        if is_frame_op(t, "pop"):
+            # a frame taken off the stack: its variables are registered nowhere until they are drained into emit_drop
+            tid = ("P", bi)
+            tokens[tid] = ("registered in the frame popped at line %s" % t.get("line"), _forward(b, {t["dest"][0]}), t.get("line"))
+            e.append(("GEN", tid))
         if c in summ_ret and c not in vis:
             tid = ("H", bi)
             tokens[tid] = ("stored in an unregistered temporary by %s at line %s" % (n, t.get("line")), _forward(b, {t["dest"][0]}), t.get("line"))
@@ -1096,7 +1101,7 @@ def rule_f11(F):
         seen_keys = set()
         for (tid, vb), callee_ in sorted(found.items(), key=lambda x: (x[0][1], str(x[0][0]))):
             fnname = hir.last(b.path.split("::{closure")[0])
-            what = "%s lowered while a value %s is in limbo" % (hir.last(callee_.split("::{closure")[0]), "taken out of its frame" if tid[0] == "R" else "in an unregistered temporary")
+            what = "%s lowered while a value %s is in limbo" % (hir.last(callee_.split("::{closure")[0]), {"R": "taken out of its frame", "P": "of a popped frame"}.get(tid[0], "in an unregistered temporary"))
             if what in seen_keys:
                 continue
             seen_keys.add(what)
@@ -1124,6 +1129,20 @@ def rule_f11(F):
         r.missing("at least 40 descents into sub-expressions (found %d)" % nvisit)
     return r
 
+def rule_f12(F):
+    """A lowered sub-expression is a lazy mir::Value: for a call it already names the argument temporaries that were taken out
+    of the frames for the callee.  Until the Value is stored (emitted) those arguments are owned by nobody, so no other
+    sub-expression may be lowered in between - it could return early and leak them (shared with C08.O4 / C01.T5, which read
+    the same fact as an evaluation-order obligation)."""
+    from . import c08
+    r = c08.rule_o4(F)
+    r.rule = "C03.F12"
+    r.desc = "a lazily lowered operand is stored before the next sub-expression is lowered: the call arguments it carries are outside the frames until then"
+    for v in r.violations:
+        v.rule = "C03.F12"
+    return r
+
+
 def rules(ctx):
     F = ctx["F"]
-    return [rule_f1(F), rule_f2(F), rule_f3(F), rule_f4(F), rule_f5(F), rule_f6(F), rule_f7(F), rule_f8(F), rule_f9(F), rule_f10(F), rule_f11(F)]
+    return [rule_f1(F), rule_f2(F), rule_f3(F), rule_f4(F), rule_f5(F), rule_f6(F), rule_f7(F), rule_f8(F), rule_f9(F), rule_f10(F), rule_f11(F), rule_f12(F)]
